@@ -407,10 +407,96 @@ def signature(name, direction, inp, sel, key, d):
     return f"{short}:{direction}"
 
 
+# ---- multi-file documents ----------------------------------------------------------------------------------
+
+
+@st.composite
+def multifile_case(draw):
+    """A response schema that reaches two files which use the *same local reference text* for different schemas."""
+    dialect = draw(st.sampled_from(["3.0", "2.0"]))
+    kinds = draw(st.permutations(["integer", "string", "boolean"]))
+    a, wa = draw(sg.schema(dialect, 0, kinds=(kinds[0],), allow_wrappers=False))
+    b, wb = draw(sg.schema(dialect, 0, kinds=(kinds[1],), allow_wrappers=False))
+    order = draw(st.sampled_from(["root-first", "shared-first"]))
+    body_kind = draw(st.sampled_from(["valid", "valid", "swapped", "root-id-wrong", "shared-id-wrong"]))
+    witness = {"id": wa, "customer": {"id": wb}}
+    if body_kind == "swapped":
+        body = {"id": wb, "customer": {"id": wa}}
+    elif body_kind == "root-id-wrong":
+        body = {"id": wb, "customer": {"id": wb}}
+    elif body_kind == "shared-id-wrong":
+        body = {"id": wa, "customer": {"id": wa}}
+    else:
+        body = witness
+    return {"dialect": dialect, "root_id": a, "shared_id": b, "order": order, "body": body, "nested_list": draw(st.booleans())}
+
+
+def check_multifile(ctx: Ctx, inp) -> None:
+    import os
+    import shutil
+    import tempfile
+
+    import requests
+    import schemathesis
+    from schemathesis.core.failures import FailureGroup
+    from schemathesis.core.transport import Response
+    from schemathesis.specs.openapi import checks as oc
+
+    dialect = inp["dialect"]
+    local = "#/definitions/Id" if dialect == "2.0" else "#/components/schemas/Id"
+    customer = {"type": "object", "properties": {"id": {"$ref": local}}, "required": ["id"]}
+    shared = {"definitions": {"Id": inp["shared_id"], "Customer": customer}} if dialect == "2.0" else {"components": {"schemas": {"Id": inp["shared_id"], "Customer": customer}}}
+    shared_customer_ref = "shared/defs.json" + ("#/definitions/Customer" if dialect == "2.0" else "#/components/schemas/Customer")
+    cust = {"$ref": shared_customer_ref}
+    if inp["nested_list"]:
+        cust = {"type": "array", "items": {"$ref": shared_customer_ref}}
+    props = [("id", {"$ref": local}), ("customer", cust)]
+    if inp["order"] == "shared-first":
+        props.reverse()
+    schema_obj = {"type": "object", "properties": dict(props), "required": ["id", "customer"]}
+    if dialect == "2.0":
+        root = {"swagger": "2.0", "info": {"title": "t", "version": "1"}, "produces": ["application/json"], "definitions": {"Id": inp["root_id"]}, "paths": {"/a": {"get": {"responses": {"200": {"description": "ok", "schema": schema_obj}}}}}}
+    else:
+        root = {"openapi": "3.0.2", "info": {"title": "t", "version": "1"}, "components": {"schemas": {"Id": inp["root_id"]}}, "paths": {"/a": {"get": {"responses": {"200": {"description": "ok", "content": {"application/json": {"schema": schema_obj}}}}}}}}
+    body = inp["body"]
+    if inp["nested_list"]:
+        body = dict(body, customer=[body["customer"]])
+    # the oracle sees the same schema with every reference inlined by hand
+    inlined_customer = {"type": "object", "properties": {"id": inp["shared_id"]}, "required": ["id"]}
+    inlined = {"type": "object", "properties": {"id": inp["root_id"], "customer": {"type": "array", "items": inlined_customer} if inp["nested_list"] else inlined_customer}, "required": ["id", "customer"]}
+    expected = not orc.is_valid(inlined, body, dialect=dialect, root={}, mode="response")
+    workdir = tempfile.mkdtemp(prefix="vfw-c04-", dir="/var/tmp")
+    try:
+        os.makedirs(os.path.join(workdir, "shared"))
+        with open(os.path.join(workdir, "shared", "defs.json"), "w") as fd:
+            json.dump(shared, fd)
+        path = os.path.join(workdir, "root.json")
+        with open(path, "w") as fd:
+            json.dump(root, fd)
+        schema = schemathesis.openapi.from_path(path).configure(base_url="http://127.0.0.1:1")
+        case = schema["/a"]["GET"].Case()
+        req = requests.Request("GET", "http://127.0.0.1:1/a").prepare()
+        resp = Response(status_code=200, headers={"Content-Type": ["application/json"]}, content=json.dumps(body).encode(), request=req, elapsed=0.1, verify=False)
+        try:
+            case.validate_response(resp, checks=[oc.response_schema_conformance])
+            got = False
+        except FailureGroup:
+            got = True
+        except Exception as exc:  # noqa: BLE001
+            got = f"crash:{type(exc).__name__}"
+    finally:
+        shutil.rmtree(workdir, ignore_errors=True)
+    ctx.case(nontrivial=inp, classes=[f"dialect={dialect}", f"order={inp['order']}", f"expected={expected}", "nested-list" if inp["nested_list"] else "direct"], sample={"input": inp, "expected_deviates": expected})
+    if got != expected:
+        direction = got if isinstance(got, str) else "false-alarm" if got else "missed-deviation"
+        ctx.disagree(f"multifile:schema:{direction}", f"two files use the local reference {local!r} for different schemas: implementation reports={got}, documentation says deviates={expected} for body {body!r}", input=inp)
+
+
 SUBS = [
+    Sub("multifile", fn=check_multifile, strategy=multifile_case, quick=(8, 150), thorough=(16, 3000), timeout_quick=300, timeout_thorough=3000),
     Sub("pairs", fn=check_pair, strategy=pair, quick=(16, 600), thorough=(16, 6000), timeout_quick=300, timeout_thorough=3000),
 ]
-FLOOR = {"pairs": 2000}
+FLOOR = {"pairs": 2000, "multifile": 500}
 
 MANIFEST = {
     "category": "exploration",
